@@ -70,14 +70,43 @@ type pending struct {
 func run(c *hc.Ctx) error {
 	r := c.Rng
 	var ps []pending
-	add := func(line, impl string, n int) { ps = append(ps, pending{line, impl, n}) }
+	var flushErr error
+	flush := func() {
+		if len(ps) == 0 || flushErr != nil {
+			ps = nil
+			return
+		}
+		lines := make([]string, len(ps))
+		for i, p := range ps {
+			lines[i] = p.line
+		}
+		outs, err := c.Drv.Batch(lines)
+		if err != nil {
+			flushErr = err
+			ps = nil
+			return
+		}
+		for i, o := range outs {
+			want := strings.TrimSpace(strings.Repeat(ps[i].impl+" ", ps[i].n))
+			if c.Compare(ps[i].line, want, o) {
+				c.Res.TracesValidated++
+			}
+		}
+		ps = nil
+	}
+	add := func(line, impl string, n int) {
+		ps = append(ps, pending{line, impl, n})
+		if len(ps) >= 20000 {
+			flush()
+		}
+	}
 	sideName := func(s crypto.Side) string {
 		if s == crypto.Server {
 			return "s"
 		}
 		return "c"
 	}
-	n := c.N(5000, 500000)
+	n := c.N(20000, 500000)
 	for i := 0; i < n; i++ {
 		key := c04shared.GenKey(r)
 		side := hc.Pick(r, crypto.Client, crypto.Server)
@@ -96,7 +125,7 @@ func run(c *hc.Ctx) error {
 			got := crypto.MessageKey(key, pt, side)
 			c.Count("op.MessageKey")
 			line := fmt.Sprintf("mk %s %s %s", sideName(side), hc.Hex(key[:]), hc.Hex(pt))
-			c.Eval(line, true)
+			c.Eval(c04shared.Sig(line), true)
 			if want := specMsgKey(key[:], pt, x); !bytes.Equal(got[:], want) {
 				c.Fail("msgkey-differs-from-spec", line, fmt.Sprintf("crypto.MessageKey=%x spec=%x", got[:], want))
 			}
@@ -105,7 +134,7 @@ func run(c *hc.Ctx) error {
 			k, iv := crypto.Keys(key, mk, side)
 			c.Count("op.Keys")
 			line := fmt.Sprintf("keys %s %s %s", sideName(side), hc.Hex(key[:]), hc.Hex(mk[:]))
-			c.Eval(line, true)
+			c.Eval(c04shared.Sig(line), true)
 			if wk, wiv := specKeys(key[:], mk[:], x); !bytes.Equal(k[:], wk) || !bytes.Equal(iv[:], wiv) {
 				c.Fail("keys-differ-from-spec", line, fmt.Sprintf("crypto.Keys=%x %x spec=%x %x", k[:], iv[:], wk, wiv))
 			}
@@ -115,7 +144,7 @@ func run(c *hc.Ctx) error {
 			got := crypto.MessageKeyV1(pt)
 			c.Count("op.MessageKeyV1")
 			line := "mkv1 " + hc.Hex(pt)
-			c.Eval(line, true)
+			c.Eval(c04shared.Sig(line), true)
 			s := sha1.Sum(pt)
 			if !bytes.Equal(got[:], s[4:20]) {
 				c.Fail("msgkeyv1-differs-from-spec", line, fmt.Sprintf("crypto.MessageKeyV1=%x spec=%x", got[:], s[4:20]))
@@ -125,7 +154,7 @@ func run(c *hc.Ctx) error {
 			k, iv := crypto.KeysV1(key, mk)
 			c.Count("op.KeysV1")
 			line := fmt.Sprintf("keysv1 %s %s", hc.Hex(key[:]), hc.Hex(mk[:]))
-			c.Eval(line, true)
+			c.Eval(c04shared.Sig(line), true)
 			if wk, wiv := specKeysV1(key[:], mk[:], 0); !bytes.Equal(k[:], wk) || !bytes.Equal(iv[:], wiv) {
 				c.Fail("keysv1-differ-from-spec", line, fmt.Sprintf("crypto.KeysV1=%x %x spec=%x %x", k[:], iv[:], wk, wiv))
 			}
@@ -134,7 +163,7 @@ func run(c *hc.Ctx) error {
 			k, iv := crypto.OldKeys(key, mk, side)
 			c.Count("op.OldKeys")
 			line := fmt.Sprintf("oldkeys %s %s %s", sideName(side), hc.Hex(key[:]), hc.Hex(mk[:]))
-			c.Eval(line, true)
+			c.Eval(c04shared.Sig(line), true)
 			if wk, wiv := specKeysV1(key[:], mk[:], x); !bytes.Equal(k[:], wk) || !bytes.Equal(iv[:], wiv) {
 				c.Fail("oldkeys-differ-from-spec", line, fmt.Sprintf("crypto.OldKeys=%x %x spec=%x %x", k[:], iv[:], wk, wiv))
 			}
@@ -142,7 +171,7 @@ func run(c *hc.Ctx) error {
 		}
 	}
 	// ---- bind message
-	nb := c.N(600, 60000)
+	nb := c.N(2000, 60000)
 	for i := 0; i < nb; i++ {
 		key := c04shared.GenKey(r)
 		perm := key.WithID()
@@ -165,13 +194,13 @@ func run(c *hc.Ctx) error {
 		c.Count("op.EncryptBindMessage")
 		if perm.Zero() {
 			c.Count("bind.zero-key")
-			c.Eval(line, false)
+			c.Eval(c04shared.Sig(line), false)
 			if err == nil {
 				c.Fail("bind-zero-key-accepted", line, "EncryptBindMessage accepted the zero permanent key")
 			}
 			continue
 		}
-		c.Eval(line, true)
+		c.Eval(c04shared.Sig(line), true)
 		if err != nil {
 			c.Fail("bind-error", line, err.Error())
 			continue
@@ -185,19 +214,9 @@ func run(c *hc.Ctx) error {
 			uint64(inner.PermAuthKeyID), uint64(inner.TempSessionID), uint32(int32(inner.ExpiresAt)))
 		add(fmt.Sprintf("unbind %s %s %s", hc.Hex(key[:]), hc.Hex(perm.ID[:]), hc.Hex(out)), fields, 1)
 	}
-	lines := make([]string, len(ps))
-	for i, p := range ps {
-		lines[i] = p.line
-	}
-	outs, err := c.Drv.Batch(lines)
-	if err != nil {
-		return err
-	}
-	for i, o := range outs {
-		want := strings.TrimSpace(strings.Repeat(ps[i].impl+" ", ps[i].n))
-		if c.Compare(ps[i].line, want, o) {
-			c.Res.TracesValidated++
-		}
+	flush()
+	if flushErr != nil {
+		return flushErr
 	}
 	c.Res.Rule = "random 2048-bit auth keys (5% all-zero / all-FF / low-entropy), both directions, random message keys (3% zero), plaintext lengths clustered at the SHA block boundaries (55/56/63/64/119/120) and random up to 4096; bind messages with random 64-bit fields, edge expiries and a 10% foreign cached key id. Every case is non-trivial; distinct = distinct input line"
 	c.Note("each answer of the model carries Impl (regenerated tables) and Spec (specification text) values; both must equal the Go output")
